@@ -38,11 +38,6 @@ func VersIllFormed(rangeText, probe string) []string {
 			return append(why, "scheme has a character outside [a-z0-9]")
 		}
 	}
-	en, ok := eco.Schemes[scheme]
-	if !ok {
-		return append(why, "unsupported scheme")
-	}
-	e := eco.ByName(en)
 	var list []string
 	stars := 0
 	for _, c := range strings.Split(cons, "|") {
@@ -61,6 +56,11 @@ func VersIllFormed(rangeText, probe string) []string {
 	if stars == 1 && len(list) == 1 {
 		return why // the lone '*' form is answered before scheme and version are looked at: not covered
 	}
+	en, ok := eco.Schemes[scheme]
+	if !ok {
+		return append(why, "unsupported scheme")
+	}
+	e := eco.ByName(en)
 	if stars > 0 {
 		return append(why, "misplaced '*'")
 	}
